@@ -18,7 +18,7 @@ from sr.symreal import conj, lift, model_value, same_cell, sym_vector
 from . import matrix_common as mc
 from . import replays
 
-FORMULAS = ["A", "A + a", "a:A", "A:B", "A + b:B", "poly(a, 2) + A", "0 + A + a:B", "a + b"]
+FORMULAS = ["A", "A + a", "a:A", "A:B", "A + b:B", "poly(a, 2) + A", "0 + A + a:B", "a + b", "C(A, levels=['x', 'y', 'z']) + a", "C(B, contr.sum):a + A", "C(A, contr.treatment('y')):b"]
 A_TRAIN = [0.5, 1.25, 2.0, 3.5, 4.75, 6.0, 7.5]
 B_TRAIN = [1.0, 7.0, 2.5, 5.5, 0.25, 3.0, 6.5]
 
@@ -46,9 +46,13 @@ def run(check: Check) -> None:
             mm0 = model_matrix(formula, dtrain, output=out)
             spec = mm0.model_spec
             labels0 = list(spec.column_names)
-            uses = {v for v in ("A", "B", "a", "b") if v in formula.replace("poly", "")}
+            import re as _re
+
+            uses = set(_re.findall(r"(?<![\w.'])(A|B|a|b)(?![\w'(])", formula))
             # --- categorical recorded, numeric arrives (symbolic)
             for var in sorted(uses & {"A", "B"}):
+                if f"C({var}" in formula:
+                    continue  # C(...) declares the factor categorical whatever arrives: its kind cannot differ from the recorded one
                 def fn(var=var):
                     x = sym_vector("x", n)
                     d2 = dtrain.drop(columns=[var])
